@@ -408,6 +408,19 @@ pub fn run(tier: &str) -> i32 {
     let mut rep = Report::new("C02", tier);
     // the whole table is cheap (<2 s): both tiers explore all of it
     let mut progs = space(rep.thorough());
+    // identifier styles of the resource variables (camelCase, UPPER): every 6th program in quick
+    {
+        let n0 = progs.len();
+        for i in 0..n0 {
+            if rep.thorough() || hash64(&progs[i].key) % 6 == 2 {
+                for style in ["camel", "upper"] {
+                    if let Some((src, _)) = restyle_globals(&progs[i].src, style) {
+                        progs.push(Prog { key: format!("{}|names={style}", progs[i].key), src, groups: progs[i].groups });
+                    }
+                }
+            }
+        }
+    }
     // module-scope declaration order is not significant: reversed / functions-first variants (every 4th in quick)
     let n0 = progs.len();
     for i in 0..n0 {
